@@ -31,9 +31,15 @@ def run(name, only=None):
             shutil.rmtree(ev, ignore_errors=True)
         return out
     finally:
+        try:
+            h = subprocess.run(['/venv/bin/python', '-c', 'from lib import env; print(env.home_dir())'], cwd='/verif',
+                               env=dict(os.environ, VERIF_REPO=wt, PYTHONPATH='/verif'), capture_output=True, text=True).stdout.strip()
+            if h.startswith('/verif/.cache/home-'):
+                shutil.rmtree(h, ignore_errors=True)
+        except Exception:
+            pass
         subprocess.run(['git', '-C', '/repo', 'worktree', 'remove', '--force', wt])
         shutil.rmtree(wt, ignore_errors=True)
-        shutil.rmtree('/verif/.cache/home-mut', ignore_errors=True)
 
 names = sys.argv[1:]
 only = None
